@@ -367,6 +367,8 @@ def gen_poly_case(rng, malformed=False):
     if isinstance(case["yerr"], list) and rng.random() < 0.15:
         i = rng.randrange(n)
         case["yerr"][i] = case["yerr"][i] / 64.0          # one much smaller uncertainty among ordinary ones
+    if not malformed and not large and rng.random() < 0.1:
+        add_repeat(rng, case)
     if malformed:
         what = rng.choice(["lo>hi", "badlen", "nonreal", "few", "empty", "toofew_all"])
         case["malformed"] = what
@@ -578,6 +580,8 @@ def gen_curve_case(rng, noise_free=False, model=None, yscale=None):
     add_dimensions(rng, case)
     if case["mode"] == "plot_fit" and case["xrange"] is not None:
         case["mode"] = "dataset_kw"
+    if rng.random() < 0.1:
+        add_repeat(rng, case)
     return case
 
 
@@ -760,8 +764,91 @@ def finite(v):
 
 
 def run_case(case, observe_result=False):
-    """returns obs = {"exn", "exn_text", "rec": {...}, "params", "errs", "result": {...}}"""
+    """returns obs = {"exn", "exn_text", "rec": {...}, "params", "errs", "result": {...}}; for data sets built from repeated
+    measurements obs["eff_case"] is the case with the values / uncertainties the data objects actually report"""
+    if case.get("repeat"):
+        return run_repeated(case, observe_result)
     return run_call(lambda: call_fit(case), case, observe_result)
+
+
+REPEAT_OFFSETS = {3: [-1.0, 0.0, 1.0], 4: [-1.0, 1.0, -0.5, 0.5], 5: [-1.0, -0.5, 0.0, 0.5, 1.0]}
+
+
+def add_repeat(rng, case):
+    """the y points (sometimes the x points too) are REPEATED measurements q.Measurement([...]): their uncertainty in use is
+    the error on the mean, which differs from their sample standard deviation"""
+    n = len(case["xs"])
+    ymag = max(abs(y) for y in case["ys"]) or 1.0
+    unit = 2.0 ** round(math.log2(ymag / 16.0))
+
+    def samples(center, spread):
+        off = REPEAT_OFFSETS[rng.choice([3, 4, 4, 5])]
+        return [center + spread * o for o in off]
+    rep = {"y": [samples(y, unit * rng.randrange(1, 17) / 8.0) for y in case["ys"]], "x": None,
+           "holder": rng.choice(["lists", "marray", "dataset"])}
+    if case["kind"] == "curve" and rng.random() < 0.4:
+        rep["x"] = [samples(x, rng.randrange(1, 9) / 64.0) for x in case["xs"]]
+    case["repeat"] = rep
+    case["mode"] = "lists"
+    for key in ("numtype", "preread", "plot"):
+        case.pop(key, None)
+    # what the data objects will report (approximately; the run reads the exact numbers off the objects)
+    def err_on_mean(v):
+        m = sum(v) / len(v)
+        return math.sqrt(sum((t - m) ** 2 for t in v) / (len(v) - 1)) / math.sqrt(len(v))
+    case["yerr"] = [err_on_mean(v) for v in rep["y"]]
+    case["ys"] = [sum(v) / len(v) for v in rep["y"]]
+    if rep["x"]:
+        case["xerr"] = [err_on_mean(v) for v in rep["x"]]
+        case["xs"] = [sum(v) / len(v) for v in rep["x"]]
+    return case
+
+
+def fit_kwargs(case):
+    kw = {}
+    if case["kind"] == "poly" and case["model"] == "polynomial" and case.get("degrees_kw", True):
+        kw["degrees"] = case["deg"]
+    if case["kind"] == "curve":
+        kw["parguess"] = list(case["guess"])
+    if case["xrange"] is not None:
+        kw["xrange"] = xrange_arg(case)
+    if case.get("parnames"):
+        kw["parnames"] = list(case["parnames"])
+    return kw
+
+
+def run_repeated(case, observe_result=False):
+    q = _q()
+    rep = case["repeat"]
+    yobjs = [q.Measurement(list(v)) for v in rep["y"]]
+    e = {}
+    if rep.get("x"):
+        xobjs = [q.Measurement(list(v)) for v in rep["x"]]
+        xs, xerr = [float(o.value) for o in xobjs], [float(o.error) for o in xobjs]
+        xarg = xobjs
+    else:
+        xs = list(case["xs"])
+        n = len(xs)
+        xerr = [0.0] * n if case["xerr"] is None else [float(v) for v in case["xerr"]] if isinstance(case["xerr"], list) \
+            else [float(case["xerr"])] * n
+        xarg = list(xs)
+        if case["xerr"] is not None:
+            e["xerr"] = list(case["xerr"]) if isinstance(case["xerr"], list) else case["xerr"]
+    eff = dict(case, xs=xs, xerr=xerr, ys=[float(o.value) for o in yobjs], yerr=[float(o.error) for o in yobjs],
+               repeat=None, mode="lists")
+    kw = fit_kwargs(case)
+    model = model_arg(case)
+    holder = rep.get("holder", "lists")
+    if holder == "marray":
+        thunk = (lambda: q.fit(q.MeasurementArray(xarg, **({"error": e["xerr"]} if "xerr" in e else {})),
+                               q.MeasurementArray(yobjs), model, **kw))
+    elif holder == "dataset":
+        thunk = (lambda: q.fit(q.XYDataSet(xarg, yobjs, **e), model, **kw))
+    else:
+        thunk = (lambda: q.fit(xarg, yobjs, model, **e, **kw))
+    obs = run_call(thunk, eff, observe_result)
+    obs["eff_case"] = eff
+    return obs
 
 
 def run_call(thunk, case, observe_result=False):
@@ -928,6 +1015,8 @@ def gen_history(rng, curve=None):
             base = gen_poly_case(rng)
             if isinstance(base["xrange"], str):
                 base["xrange"] = None
+        if base.get("repeat"):
+            continue          # in-place edits below address plain points
         n = len(base["xs"])
         npar = nparams_of(base)
         reqs = [request_of(base)]
@@ -1391,6 +1480,8 @@ def shrink_case(case, fails):
             for key in ("xs", "ys", "xerr", "yerr"):
                 if isinstance(c.get(key), list):
                     c[key] = c[key][:i] + c[key][i + 1:]
+            if c.get("repeat"):
+                c["repeat"] = {k: (v[:i] + v[i + 1:] if isinstance(v, list) else v) for k, v in c["repeat"].items()}
             if len(c["xs"]) > nparams_of(c) + 1 and attempt(c):
                 changed = True
                 break
